@@ -42,6 +42,14 @@ ASSUME = ["the set diagram in the mkusetmask/mksetpv/addgrid docstrings is the c
           "locate helpers are exercised on finite values without NaN; find_subseq on integers and "
           "binary fractions (exact correlation)"]
 KNOWN = {}
+_REQ = ["lattice:T0:refused", "lattice:T0:selects", "lattice:N1:selects", "lattice:no_:refused",
+        "sets:pair:refused", "sets:pair:selects", "sets:perm", "sets:how:ag", "sets:how:int",
+        "sets:nbase:4", "dofpv:missing", "dofpv:packed", "dofpv:strict", "dofpv:nonstrict",
+        "dofpv:ndarray", "dofpv:bad_component", "build:addgrid", "build:make_uset",
+        "build:make_uset_err", "build:expanddof", "locate:mi:negzero", "locate:mi:if",
+        "locate:dups:some", "locate:i2s:slice", "locate:i2s:cannot", "locate:fs:decoy",
+        "locate:ml:noconflict", "edge:find_duplicates"]
+REQUIRED_CLASSES = {"quick": _REQ, "thorough": _REQ}
 
 BASIC = [[0.0, 1.0, 0.0], [0.0, 0.0, 0.0], [1.0, 0.0, 0.0], [0.0, 1.0, 0.0], [0.0, 0.0, 1.0]]
 
@@ -1058,7 +1066,7 @@ EDGE = [
     {"what": "find_subseq_longer", "seq": [1, 2], "sub": [1, 2, 3]},
     {"what": "mkdofpv_empty_set", "strict": False},
     {"what": "mkdofpv_empty_set", "strict": True},
-    {"what": "addgrid_nasset_ndarray", "sets": ["b", "m", "q", "o"]},
+    {"what": "addgrid_nasset_ndarray", "sets": ["b", "m", "q"]},
     {"what": "addgrid_nasset_ndarray", "sets": ["b", "m"]},
     {"what": "make_uset_split_grid", "dof": [[1, 123], [2, 456]]},
 ]
@@ -1125,8 +1133,8 @@ PARTS = [
     Part("lattice", oracle_lattice, enum=enum_lattice, quick=(8, None), thorough=(16, None),
          exhaustive=True),
     Part("sets", oracle_sets, strategy=set_cases, quick=(8, 200), thorough=(16, 2000)),
-    Part("dofpv", oracle_dofpv, strategy=dof_cases, quick=(8, 320), thorough=(16, 3000)),
-    Part("build", oracle_build, strategy=build_cases, quick=(4, 400), thorough=(8, 4000)),
-    Part("locate", oracle_locate, strategy=locate_cases, quick=(8, 2500), thorough=(16, 15000)),
+    Part("dofpv", oracle_dofpv, strategy=dof_cases, quick=(8, 280), thorough=(16, 3000)),
+    Part("build", oracle_build, strategy=build_cases, quick=(4, 320), thorough=(8, 4000)),
+    Part("locate", oracle_locate, strategy=locate_cases, quick=(8, 2000), thorough=(16, 15000)),
     Part("edge", oracle_edge, enum=enum_edge, quick=(1, None), thorough=(1, None)),
 ]
